@@ -134,9 +134,13 @@ class SeenRequest:
         self.sent_status = None
 
 
+def decode_ent(s):
+    return refofx.decode_entities(s)
+
+
 class SimFI:
     def __init__(self, sim, net, name, prof_url, svc_url, cookies=False, form="v1u", pretty=False,
-                 org=None, fid=None):
+                 org=None, fid=None, tenant=None):
         self.sim = sim
         self.name = name
         self.prof_url = prof_url
@@ -161,9 +165,20 @@ class SimFI:
         self.msgsets = ALL_MSGSETS
         self.closing = ("Y", "Y")        # CLOSINGAVAIL of the bank / credit-card message sets
         self.cookie_attrs = False
+        # tenant=(org, fid): this institution shares its URLs with others and answers only the requests whose
+        # SONRQ names it in <FI><ORG>/<FID>
+        self.tenant = tenant
         for url in sorted({prof_url, svc_url}):
             scheme, host, port, target = url_parts_q(url)
-            net.register(scheme, host, port, self.handle, target)
+            net.register(scheme, host, port, self.handle, target, match=self.claims if tenant else None)
+
+    def claims(self, req):
+        import re
+        body = req.body.decode("latin-1", "replace")
+        org = re.search(r"<ORG>([^<\r\n]*)", body)
+        fid = re.search(r"<FID>([^<\r\n]*)", body)
+        got = (decode_ent(org.group(1).strip()) if org else None, decode_ent(fid.group(1).strip()) if fid else None)
+        return got == tuple(self.tenant)
 
     # -- profile versions -------------------------------------------------------
     def new_profile(self, older=False):
@@ -433,7 +448,7 @@ class SimFI:
         c.reject_fn = None
         for url in sorted({self.prof_url, self.svc_url}):
             scheme, host, port, target = url_parts_q(url)
-            net.register(scheme, host, port, c.handle, target)
+            net.register(scheme, host, port, c.handle, target, match=c.claims if c.tenant else None)
         return c
 
 
